@@ -34,7 +34,8 @@ int __wrap_pthread_mutex_init(pthread_mutex_t* m, const pthread_mutexattr_t* a) 
 int __wrap_pthread_mutex_destroy(pthread_mutex_t* m) { sh_mutex_free(mx(m, 0)); return 0; }
 int __wrap_pthread_mutex_lock(pthread_mutex_t* m) { sh_mutex_lock(mx(m, 0)); return 0; }
 int __wrap_pthread_mutex_unlock(pthread_mutex_t* m) { sh_mutex_unlock(mx(m, 0)); return 0; }
-int __wrap_pthread_cond_init(pthread_cond_t* c, const pthread_condattr_t* a) { (void)a; (void)cv(c, 1); return 0; }
+int sh_fail_cond_init(void) __attribute__((weak));
+int __wrap_pthread_cond_init(pthread_cond_t* c, const pthread_condattr_t* a) { (void)a; if (sh_fail_cond_init && sh_fail_cond_init()) return 12; (void)cv(c, 1); return 0; }
 int __wrap_pthread_cond_destroy(pthread_cond_t* c) { sh_cond_free(cv(c, 0)); return 0; }
 int __wrap_pthread_cond_wait(pthread_cond_t* c, pthread_mutex_t* m) { sh_cond_wait(cv(c, 0), mx(m, 0)); return 0; }
 int __wrap_pthread_cond_timedwait(pthread_cond_t* c, pthread_mutex_t* m, const struct timespec* t) {
